@@ -1,0 +1,26 @@
+//go:build verif
+// +build verif
+
+/*
+Copyright SecureKey Technologies Inc. All Rights Reserved.
+
+SPDX-License-Identifier: Apache-2.0
+*/
+
+package verifhooks
+
+import (
+	internaljws "github.com/trustbloc/sidetree-core-go/pkg/internal/jws"
+	"github.com/trustbloc/sidetree-core-go/pkg/jws"
+)
+
+// VerifyJWSDetached is internal/jws.VerifyJWS with the option WithJWSDetachedPayload(payload);
+// it returns the protected headers and payload on success.
+func VerifyJWSDetached(compact string, jwk *jws.JWK, payload []byte) (jws.Headers, []byte, error) {
+	s, err := internaljws.VerifyJWS(compact, jwk, internaljws.WithJWSDetachedPayload(payload))
+	if err != nil {
+		return nil, nil, err
+	}
+
+	return s.ProtectedHeaders, s.Payload, nil
+}
